@@ -223,6 +223,9 @@ func (x *c20SX) builtin(name string, call *ast.CallExpr, st *c20St) []c20EV {
 		return c20One(st, c20Unknown("`%s`", x.srcOf(call)))
 	}
 	if name == "make" {
+		if out, ok := x.makeList(call, st); ok {
+			return out
+		}
 		t := x.info.TypeOf(call)
 		// the length must be the constant 0 (the capacity is free)
 		if len(call.Args) >= 2 {
@@ -263,16 +266,20 @@ func (x *c20SX) builtin(name string, call *ast.CallExpr, st *c20St) []c20EV {
 func (x *c20SX) appendTo(l c20V, vs []c20V, at ast.Node) c20V {
 	switch l.k {
 	case c20kList:
+		if l.tag == "presized" {
+			return c20Unknown("`%s` appends to a list presized by a slice length", x.srcOf(at))
+		}
 		if l.star != nil {
 			return c20Unknown("`%s` appends after the options", x.srcOf(at))
 		}
 		n := l
 		n.elems = append([]c20Sym(nil), l.elems...)
 		for _, v := range vs {
-			if v.k != c20kStr {
+			sym, ok := c20ListElem(l, v)
+			if !ok {
 				return c20Unknown("`%s` appends %s", x.srcOf(at), v.String())
 			}
-			n.elems = append(n.elems, v.sym)
+			n.elems = append(n.elems, sym)
 		}
 		return n
 	case c20kBytes:
